@@ -624,11 +624,16 @@ class ETCAppend(Contract):
         # own contracts: EmulsionInit / EmulsionCopy); what is verified here is the pairing of members and times.
         mk = z3.Function("Emulsion_of", I, I)
         cp = z3.Function("copy_of", I, I)
+        copies = self.copies = []
 
         def em_ctor(run2, args, kw):
             v = args[0]
             r = SOpaque("emulsion", term=mk(v.term))
-            r.attrs["copy"] = SNative(lambda run3, a3, k3: SOpaque("emulsion", term=cp(mk(v.term))), "Emulsion.copy")
+            def do_copy(run3, a3, k3):
+                mr = a3[0] if a3 else k3.get("min_radius")
+                copies.append((list(a3), dict(k3)))
+                return SOpaque("emulsion", term=cp(mk(v.term)))
+            r.attrs["copy"] = SNative(do_copy, "Emulsion.copy")
             return r
         clo_mod = source.load_module(fi.module)
         from pyvc.engine import Frame
@@ -650,6 +655,8 @@ class ETCAppend(Contract):
                 ("earlier entries stay paired and in place", z3.ForAll([k], z3.Implies(z3.And(k >= 0, k < n), z3.And(
                     z3.Select(ems.elems, k) == z3.Select(E0, k), z3.Select(times.elems, k) == z3.Select(T0, k))))),
                 ("the new member is (a copy of) Emulsion(argument)", z3.Select(ems.elems, n) == exp_e),
+                ("the copy keeps EVERY member: copy() is called at most once and without a radius filter (vanished droplets of radius 0 are members too)",
+                 len(self.copies) == (1 if case["copy"] else 0) and all(not a_ and (not k_ or (set(k_) == {"min_radius"} and isinstance(const_of(k_["min_radius"]), (int, float, __import__("fractions").Fraction)) and const_of(k_["min_radius"]) < 0)) for a_, k_ in self.copies)),
                 ("the new member is paired with the given time, also when it is 0 (default: previous + 1, or 0 first)",
                  z3.Select(times.elems, n) == exp_t)]
 
